@@ -307,6 +307,8 @@ def _work(args: t.Tuple[int, int, int]) -> t.List[t.Any]:
             continue
         base = _G["real"][k]
         for e in edges:
+            if C.too_many_hangs():
+                break
             s = copy.deepcopy(base)
             obs = do_call(s, role, e["call"], rnd)
             n += 1
